@@ -450,6 +450,14 @@ class Check:
                 self.proof_broken("tools/translate_names.py: genapi/src/parser/elem_name.rs no longer has the shape the "
                                   "translator accepts (%s): gen/ElemNames.v cannot be regenerated" % e)
                 return False
+            import translate_parseorder
+            try:
+                translate_parseorder.regenerate(REPO)
+            except (translate_parseorder.ShapeError, OSError) as e:
+                self.proof_broken("tools/translate_parseorder.py: a covered `impl Parse for X` of genapi/src/parser/*.rs (or a "
+                                  "pinned leaf impl, or a struct / enum / Default definition it relies on) no longer has the "
+                                  "shape the translator accepts (%s): gen/ParseOrderSrc.v cannot be regenerated" % e)
+                return False
         tr = {"C03": "tools/translate_ivalue.py (statement-level translator with dictionary passing for traits: trait IValue and every implementation of genapi/src/ivalue.rs with impl_ivalue_for_imm! / impl_ivalue_for_vid! expanded from their parsed definitions, PIndex::index, the provided methods integer_value / float_value / str_value of trait ValueStore and NodeId::as_*_kind / expect_*_kind of store.rs, the I*Kind::maybe_from tables of interface.rs, the data types of elem_type.rs, value / set_value / min / max of IntegerNode and FloatNode, value / set_value of BooleanNode, current_value / set_entry_by_value of EnumerationNode, execute / is_done of CommandNode -> gen/IValueSrc.v; the requests to other nodes through the interface kinds, the value store, `as` conversions, the EnumEntry lookup and the cache forwarders (no-ops: CacheSink) are interpreted by model/IvOps.v over the primitives of model/Graph.v; shape of NodeBase::new / id, node_base(), impl_value_data_conversion! and enum ValueData asserted)",
               "C01": "tools/translate_codec.py (macro arms and match arms of int_from_slice / bytes_from_int / float_from_slice / bytes_from_float, genapi/src/utils.rs -> gen/CodecSrc.v) and lib/RustBytes.v (from_xx_bytes / to_xx_bytes / copy_from_slice)",
               "C18": "tools/translate_access.py (NodeElementBase / RegisterBase is_readable, is_writable and the three controls, genapi/src/node_base.rs + register_base.rs -> gen/AccessSrc.v over model/AccessOps.v)",
@@ -467,7 +475,7 @@ class Check:
               "C10": "tools/translate_chunks.py (symbolic executor of ReadMemChunks::next / WriteMemChunks::next etc. -> gen/ReadChunks.v) and lib/RustInt.v",
               "C15": "tools/translate_code.py (translator of enable_streaming + Sirm accessors -> gen/EnableStreaming.v), tools/translate_streamparams.py (typed mini-Rust translator, on top of tools/translate_streamparse.py, of StreamParams::{new, maximum_payload_size, payload_transfer_sizes, from_control} and read_leader / read_payload / read_trailer of cameleon/src/u3v/stream_handle.rs -> gen/StreamParamsSrc.v; iterator adaptors, the for loop, submit on a buffer range and the register_map.rs calls are interpreted by model/SpOps.v + model/RdOps.v; the Sirm / Abrm getter bodies, Abrm::new / Abrm::sbrm / Sbrm::sirm, AsyncPool::submit and From<u3v::Error> for StreamError are asserted) and lib/RustInt.v",
               "C12": "tools/translate_streamparams.py (typed mini-Rust translator, on top of tools/translate_streamparse.py, of StreamParams::{new, maximum_payload_size, payload_transfer_sizes, from_control} and read_leader / read_payload / read_trailer of cameleon/src/u3v/stream_handle.rs -> gen/StreamParamsSrc.v; iterator adaptors, the for loop, submit on a buffer range and the register_map.rs calls are interpreted by model/SpOps.v + model/RdOps.v; the Sirm / Abrm getter bodies, Abrm::new / Abrm::sbrm / Sbrm::sirm, AsyncPool::submit and From<u3v::Error> for StreamError are asserted) and lib/RustInt.v",
-              "C17": "tools/translate_names.py (element names and literal tables -> gen/ElemNames.v)"}.get(pid)
+              "C17": "tools/translate_names.py (element names and literal tables -> gen/ElemNames.v); tools/translate_parseorder.py (own tokenizer / expression parser / type inference from the struct definitions of genapi/src/*.rs: every `impl Parse for X` of genapi/src/parser/*.rs except GroupNode and the Vec<NodeData> dispatch -> gen/ParseOrderSrc.v, the ordered schedule of cursor operations with the local and struct field each result lands in; leaf impls String / NodeId / bool / i64 / u64 / f64 / Expr, the id macros and match_text_view! pinned by token text) and model/PoOps.v (the meaning of a schedule over the cursor primitives of model/GenApiParse.v)"}.get(pid)
         if tr and tr not in self.trusted:
             self.trusted.append("re-run on /repo's sources by this run: " + tr)
         bad = grep_forbidden()
